@@ -207,6 +207,22 @@ func runCase(t *rapid.T, c cfg) *result {
 		return h, best
 	}
 
+	if c.prop == "C07" && rapid.IntRange(0, 2).Draw(t, "orphanDecoy") == 0 {
+		// before anything else arrives: a bogus child of the tip of the longest valid branch (right parent hash, a
+		// number beyond parent+1). It waits in the orphan pool; the fault of such a child is not its parent's
+		var tip *vnode.TBlock
+		for _, b := range tr.Blocks {
+			if b.ChainValid && (tip == nil || b.Height() > tip.Height()) {
+				tip = b
+			}
+		}
+		if tip != nil {
+			decoy := vnode.DecoyChild(tip.Block, uint64(rapid.IntRange(1, 5).Draw(t, "decoyGap")))
+			err := D.AddPeer(decoy)
+			steps = append(steps, fmt.Sprintf("decoy: bogus child (number %d) of block %s delivered first: %v", decoy.BlockNo(), tip.Desc, err))
+			res.classes["orphan-decoy"] = true
+		}
+	}
 	for step, bi := range sched {
 		tb := tr.Blocks[bi]
 		preBest := D.Best()
